@@ -9,4 +9,5 @@ cargo build --offline --manifest-path "${VERIF_SUBJECT:-/repo}/Cargo.toml" --tar
 cargo build --offline --release --manifest-path "${VERIF_SUBJECT:-/repo}/Cargo.toml" --target-dir .build/subject-release
 (cd mc && cargo build --offline --workspace --target-dir "$PWD/../.build/mc" && cargo build --offline --release -p inproc --target-dir "$PWD/../.build/mc")
 if [ -f faultfs/faultfs.c ]; then gcc -O2 -shared -fPIC -o .build/faultfs.so faultfs/faultfs.c -ldl; fi
+./check --record-fingerprint
 echo setup done
